@@ -797,6 +797,21 @@ fn hex_seq(c: &[[u8; 32]]) -> String {
 // ------------------------------------------------------------ per-step hook
 
 pub async fn per_step_checks(world: &mut NetWorld, rec: &mut Recorder, prop: &str, opn: &str) {
+    let n_before = rec.violations.len();
+    per_step_checks_inner(world, rec, prop, opn).await;
+    // uncoordinated history rewrites on several devices are a recorded root
+    // cause (see known_findings.json); keep its consequences apart from
+    // everything else
+    if world.devices.iter().any(|d| d.own.rewritten) {
+        for v in rec.violations.iter_mut().skip(n_before) {
+            if matches!(v.property.as_str(), "C02" | "C20") && !v.signature.ends_with("/after_history_rewrite") {
+                v.signature.push_str("/after_history_rewrite");
+            }
+        }
+    }
+}
+
+async fn per_step_checks_inner(world: &mut NetWorld, rec: &mut Recorder, prop: &str, opn: &str) {
     let do_c02 = matches!(prop, "C02");
     let do_c20 = matches!(prop, "C20");
     let do_c08 = matches!(prop, "C08");
